@@ -7,13 +7,15 @@ import asyncio
 
 from harness.lib import vtloop
 from harness.props import c19 as H
+from harness.props import _pipeline as P      # Nack reason forms (value + encoding) shared with C03
 
 
 class ProducerFace:
     """Stands where the NFD face is: [send] receives encoded Interests, replies are injected through
     the app's receive callback in a later loop turn."""
 
-    def __init__(self, loop, answer, trace):
+    def __init__(self, loop, answer, trace, nack_form=150):
+        self.nack_form = nack_form       # reason and encoding of the NetworkNack sent for a nacked Interest
         self.running = True
         self.callback = None
         self.loop = loop
@@ -25,7 +27,6 @@ class ProducerFace:
 
     def send(self, wire):
         from ndn.encoding import parse_interest, make_data, MetaInfo, parse_tl_num
-        from ndn.encoding.ndnlp_v2 import make_network_nack
         wire = bytes(wire)
         name, param, app_param, sig = parse_interest(wire, with_tl=True)
         q = (H.nb(name), bool(param.can_be_prefix), bool(param.must_be_fresh), param.lifetime)
@@ -45,7 +46,7 @@ class ProducerFace:
             pkt = bytes(make_data(i[0], MetaInfo(final_block_id=i[2]), i[1], signer=None))
             self.invalid_next = True
         elif r[1] == (1,):
-            pkt = bytes(make_network_nack(wire, 150))
+            pkt = P.nack_wire(wire, self.nack_form)
         else:
             return          # lost: the Interest times out
         typ, _ = parse_tl_num(pkt)
@@ -55,13 +56,16 @@ class ProducerFace:
         self.running = False
 
 
-def run_real(answer, prefix, kw):
+def run_real(answer, prefix, kw, nack_form=150):
     from ndn.app import NDNApp
     from ndn.app_support.segment_fetcher import segment_fetcher
     from ndn import types as T
+    import logging
+    logging.getLogger('ndn').setLevel(logging.CRITICAL)
     loop = vtloop.new_loop()
     trace = []
-    face = ProducerFace(loop, answer, trace)
+    face = ProducerFace(loop, answer, trace, nack_form)
+    face.nack_reason_got = None
     app = NDNApp(face=face, keychain=object())
 
     async def validator(name, sig):
@@ -76,7 +80,8 @@ def run_real(answer, prefix, kw):
             return (0,)
         except T.InterestTimeout:
             return (1, (0,))
-        except T.InterestNack:
+        except T.InterestNack as e:
+            face.nack_reason_got = e.reason
             return (1, (1,))
         except T.ValidationFailure:
             return (1, (2,))
@@ -96,7 +101,7 @@ def run_real(answer, prefix, kw):
 
 def stream_c(ctx):
     rng = ctx.rng
-    M = ctx.call
+    # sampled scenarios; the Nack of a nacked Interest carries a reason / encoding drawn from the shared pool
     for it in range(ctx.n(250, 4000)):
         N = rng.choice([1, 2, 3, 4, 6])
         disc_k = rng.choice(list(range(N)) + [None])
@@ -107,10 +112,27 @@ def stream_c(ctx):
         faults = {rng.choice(keys): rng.choice([H.NACKED, H.INVALID])} if rng.random() < 0.3 else None
         style = rng.choice(['exact', 'exact', 'all', 'absent', 'early', 'noncanon', 'only_early'])
         s = H.mk_scenario(rng, N, disc_k, style, H.fates_from(losses, faults), prefix_mode=rng.choice([0, 1]))
+        one_case(ctx, s, N, retry, rng.choice([4000, 500, 50]), rng.choice([True, False]), rng.choice(P.NACK_POOL), 'C.realapp')
+    # Nack table: every reason value / encoding x the key that is nacked (discovery, first, middle, last segment)
+    # x the number of losses before the Nack (0, one below the limit): the fetch ends with InterestNack(that reason)
+    # after the contents of the earlier segments, and the nacked Interest is not re-expressed
+    forms = P.NACK_FORMS if ctx.thorough else P.NACK_FORMS[:8] + P.NACK_FORMS[13:15]
+    for form in forms:
+        for key in (None, 0, 1, 2):
+            for retry in (1, 3):
+                N = 3
+                losses = {k: 0 for k in [None] + list(range(N))}
+                losses[key] = retry - 1
+                disc_k = rng.choice([k for k in (0, 1, 2) if k != key])       # segment [key] is really asked for
+                s = H.mk_scenario(rng, N, disc_k, 'exact', H.fates_from(losses, {key: H.NACKED}), prefix_mode=0)
+                one_case(ctx, s, N, retry, 100, True, form, 'C.nack-table')
+
+
+def one_case(ctx, s, N, retry, lifetime, mbf, nack_form, stratum):
+        M = ctx.call
+        att = max(1, retry)
         if not s['prefix']:
             s['prefix'] = s['base']
-        lifetime = rng.choice([4000, 500, 50])
-        mbf = rng.choice([True, False])
         base_answer, fate = H.scenario_answer(s)
 
         def answer(q, n, base_answer=base_answer, s=s):
@@ -126,11 +148,12 @@ def stream_c(ctx):
                 return ('exc', (2,), d)
             return r
         kw = {'retry_times': retry, 'timeout': lifetime, 'must_be_fresh': mbf}
-        trace, ending, elapsed, errors, pending, face = run_real(answer, s['prefix'], kw)
+        trace, ending, elapsed, errors, pending, face = run_real(answer, s['prefix'], kw, nack_form)
         for t in trace:
             if t[0] == 'ask' and len(t[2]) == 3:
                 t[2] = t[2][:2]
-        case = {'stream': 'real NDNApp', 'scenario': s, 'retry_times': retry, 'timeout': lifetime, 'must_be_fresh': mbf}
+        case = {'stream': 'real NDNApp', 'scenario': s, 'retry_times': retry, 'timeout': lifetime, 'must_be_fresh': mbf,
+                'nack': nack_form}
         es = H.enc_scn(s)
         m = M([2, [retry, lifetime, int(mbf)], H.FUEL, es])
         mev, mend = H.norm(m[0]), H.dec_ending(m[1])
@@ -144,7 +167,8 @@ def stream_c(ctx):
             ctx.violation('segment_fetcher+NDNApp', 'contents', f'yielded {len(ys)} contents, specification demands {len(eys)}', case)
         elif ending != eend:
             ctx.violation('segment_fetcher+NDNApp', f'ending:{eend}->{ending}', f'fetch ended with {ending}, specification demands {eend}', case)
-        H.check_discipline(ctx, trace, ending, att, case)
+        H.check_discipline(ctx, trace, ending, att, case, site='segment_fetcher+NDNApp')
+        H.check_nack_reason(ctx, 'segment_fetcher+NDNApp', ending, face.nack_reason_got, P.nack_reason_value(nack_form), case)
         H.check_asks(ctx, M, [retry, lifetime, int(mbf)], es, [t for t in trace if t[0] == 'ask'], case, 'segment_fetcher+NDNApp')
         # a lost Interest is re-expressed only after its lifetime has elapsed (virtual clock)
         asks = [t for t in trace if t[0] == 'ask']
@@ -159,5 +183,7 @@ def stream_c(ctx):
         if pending:
             ctx.violation('segment_fetcher+NDNApp', 'pending-interests-left', f'{pending} entries left in the pending Interest table', case)
         ctx.case(('C', repr(s), retry, lifetime, mbf), len(asks) >= 2 and any(t[2][0] == 'data' for t in asks),
-                 {'N': N, 'retry': retry, 'ending': ending, 'interests': len(asks), 'virtual_s': round(elapsed, 3)}, 'C.realapp')
+                 {'N': N, 'retry': retry, 'ending': ending, 'interests': len(asks), 'virtual_s': round(elapsed, 3)}, stratum)
         ctx.stat('C.ending:' + str(ending))
+        if any(t[0] == 'ask' and t[2][:2] == ('exc', (1,)) for t in trace):
+            ctx.stat('C.nack-form:' + (nack_form[0] if isinstance(nack_form, tuple) else ('0' if nack_form == 0 else 'nonzero')))
